@@ -94,6 +94,9 @@ fn run_n<const N: usize>(cfg: &Cfg, src: &mut dyn Source, hard_cap: usize, recor
     ex.stats.add("fault.short_io", d.short_io);
     ex.stats.add("disk.bytes_written", d.bytes_written);
     ex.stats.add("disk.bytes_read", d.bytes_read);
+    ex.stats.add("disk.mirror_writes", d.mirror_writes);
+    ex.stats.add("disk.bypass_imports", d.bypass_imports);
+    ex.stats.add("disk.metadata_calls", d.metadata_calls);
     ex.stats.add("hash.seeded_containers_made", sodg::verif::collections::containers_made() - made0);
     let steps_done = ex.view.steps_done;
     ex.finish();
